@@ -1,4 +1,37 @@
-(* placeholder until the proofs are integrated *)
-From DictIO Require Import Chars Str Value Scalar.
-Theorem C15_placeholder : True. Proof. exact I. Qed.
-Print Assumptions C15_placeholder.
+(* C15  Ordering sorts keys at every dict level and changes nothing else. *)
+From Coq Require Import NArith ZArith List Bool Permutation.
+From DictIO Require Import Chars Str Value Scalar KeyPath SDict TreeSpec OrderProofs.
+Import ListNotations.
+
+(* keys ascending (ints before strings) at every dict level reachable through dicts *)
+Theorem C15_sorted : forall t, sorted_deep (order_tree t) = true.
+Proof. exact order_sorted_deep. Qed.
+Print Assumptions C15_sorted.
+
+(* the keys of a level are permuted, nothing is lost or added *)
+Theorem C15_perm : forall kvs, Permutation (map fst (kvs_of (order_tree (Dict kvs)))) (map fst kvs).
+Proof. exact order_keys_perm. Qed.
+Print Assumptions C15_perm.
+
+(* same key-to-value association at every level: whatever is reached through a path of dict keys is the
+   ordered version of what was there before (leaves and lists: the very same value) *)
+Theorem C15_assoc : forall t p, get_dpath (order_tree t) p = option_map order_child (get_dpath t p).
+Proof. exact order_assoc_deep. Qed.
+Print Assumptions C15_assoc.
+
+(* lists, and the dicts inside lists, keep their order; leaves are untouched *)
+Theorem C15_lists : (forall ts, order_child (Lst ts) = Lst ts) /\ (forall v, order_child (Leaf v) = Leaf v).
+Proof. exact order_lists_untouched. Qed.
+Print Assumptions C15_lists.
+
+Theorem C15_idem : forall t, order_tree (order_tree t) = order_tree t.
+Proof. exact order_idem. Qed.
+Print Assumptions C15_idem.
+
+(* non-vacuity: a mixed-key dict with a nested dict and a list of dicts *)
+Example C15_example :
+  order_tree (Dict [(KS [98%N], Leaf (SInt 1)); (KI 2, Dict [(KS [122%N], Leaf SNone); (KI (-1), Leaf SNone)]);
+                    (KS [97%N], Lst [Dict [(KS [98%N], Leaf SNone); (KS [97%N], Leaf SNone)]])])
+  = Dict [(KI 2, Dict [(KI (-1), Leaf SNone); (KS [122%N], Leaf SNone)]);
+          (KS [97%N], Lst [Dict [(KS [98%N], Leaf SNone); (KS [97%N], Leaf SNone)]]); (KS [98%N], Leaf (SInt 1))].
+Proof. vm_compute. reflexivity. Qed.
